@@ -358,7 +358,8 @@ func (c *ClientConn) maybePrepareAndExecute(request Request, raw *frame.RawFrame
 			prepareFrm, err = c.reencodePrepare(prepare.PreparedFrame, raw.Header.Version)
 			if err != nil {
 				c.logger.Error("failed to encode cached prepare request for this connection", zap.String("id", id), zap.Error(err))
-				return false
+				request.Execute(true) // The statement is known, so this host is given up on instead of the request
+				return true
 			}
 			err = c.Send(&prepareRequest{
 				prepare:     prepareFrm,
@@ -369,10 +370,11 @@ func (c *ClientConn) maybePrepareAndExecute(request Request, raw *frame.RawFrame
 					zap.String("host", c.conn.RemoteAddr().String()),
 					zap.String("id", id),
 					zap.Error(err))
-				return false
-			} else {
-				return true
+				// The re-prepare can't be sent on this connection (it's closed or out of streams), try the next host
+				// rather than handing the "unprepared" error of a statement that is in the cache to the client.
+				request.Execute(true)
 			}
+			return true
 		} else {
 			c.logger.Warn("received unprepared error response, but existing prepared ID not in the cache",
 				zap.String("id", id))
